@@ -126,7 +126,7 @@ def _gen_main(rng, tier):
             for fmt in ("f32", "f64"):
                 for f in exponent_sweep(rng, fmt, w * n):
                     yield f"from_{fmt} {s}{cfg} {hx(f)}", "exponent-sweep"
-    reps = 300 if tier == "thorough" else 60
+    reps = 600 if tier == "thorough" else 300
     for cfg in cfgs(tier):
         w, n = wn(cfg)
         W = w * n
